@@ -65,6 +65,22 @@ theorem persistent_failure_stops (cfg : RCfg) (hτ : cfg.tau ≠ 0) (t0 t1 : Nat
     (runReader cfg (.eof :: .eof :: post) { clock := t0 :: t1 :: clock }).2 = .toleranceExpired := by
   simp [runReader, stepReader, hτ, hlate]
 
+/-- Whatever the failures, timings and tolerance: what the reader forwards is always a prefix of
+    the bytes the source supplied - nothing is ever duplicated, reordered or invented. -/
+theorem forwarded_is_prefix (cfg : RCfg) (script : List ReadRes) (clock : List Nat) :
+    (runReader cfg script { clock := clock }).1.forwarded <+: bytesOf script := by
+  have h := (forwarded_exact cfg script clock).1
+  rw [h]
+  generalize (runReader cfg script { clock := clock }).1.consumed = k
+  refine ⟨bytesOf (script.drop k), ?_⟩
+  rw [← bytesOf_append, List.take_append_drop]
+
+/-- … and so are the bytes of the messages delivered from it. -/
+theorem delivered_is_prefix (crc : Bytes → Nat) (cfg : RCfg) (script : List ReadRes) (clock : List Nat) :
+    ((segment crc (In.ofBytes (runReader cfg script { clock := clock }).1.forwarded)).map (·.raw)).flatten
+      <+: bytesOf script := by
+  rw [C02.segment_lossless]; exact forwarded_is_prefix cfg script clock
+
 /-! Non-vacuity (tests): EOF inside a frame, tolerated. -/
 example : Isolated [.byte 0xD3, .eof, .byte 0x00, .timeout, .byte 0x01] := by simp [Isolated, ReadRes.isSoftFailure, ReadRes.isByte]
 example : (runReader ⟨50, 1⟩ [.byte 0xD3, .eof, .byte 0x00, .timeout, .byte 0x01] { clock := [10, 20] }).1.forwarded
